@@ -84,7 +84,10 @@ def main():
     rng = random.Random(int(os.environ.get("VERIF_SEED", "1")))
     failures = []
     for _ in range(n):
-        failures += run_one(rng)
+        try:
+            failures += run_one(rng)
+        except Exception as e:  # noqa: BLE001
+            failures.append({"problems": [f"raised {type(e).__name__}: {str(e)[:120]}"]})
     print(json.dumps({"evaluations": n, "distinct_nontrivial": n, "n_failures": len(failures), "failures": failures[:4],
                       "bound": f"{n} seeded stores: 2-7 objects (CRLF/LF text, binary with CRLF, empty, non-ASCII, random) + one directory listing, "
                                "4 algorithm pairs, 2x2 store classes"}))
